@@ -144,7 +144,7 @@ PROPS = {
         "assumptions": ["no --commodity filter in this check's flag vectors (the filtered sum of positions is not assembled into a theorem)"],
     },
     "C09": {
-        "lean": ["Knut.Properties.C09", "Knut.Properties.C09Decimal", "Knut.Properties.C09Text", "Knut.Properties.C09Journal", "Knut.Properties.C09Cmd", "Knut.FactsAgree.TransTransaction", "Knut.FactsAgree.TransCreate", "Knut.FactsAgree.TransCreate2", "Knut.FactsAgree.TransJPrinter", "Knut.FactsAgree.TransJPrinter2", "Knut.Properties.C09Go"],
+        "lean": ["Knut.Properties.C09", "Knut.Properties.C09Decimal", "Knut.Properties.C09Text", "Knut.Properties.C09Journal", "Knut.Properties.C09Cmd", "Knut.FactsAgree.TransTransaction", "Knut.FactsAgree.TransCreate", "Knut.FactsAgree.TransCreate2", "Knut.FactsAgree.TransCreate3", "Knut.FactsAgree.TransJPrinter", "Knut.FactsAgree.TransJPrinter2", "Knut.Properties.C09Go"],
         "level": "proof",
         "claim": "Proof (all three clauses, for every printable journal, on the model of the commands for a journal that is one file) + full correspondence. Properties/C09Journal.lean: C09_print_accepted (the printed text loads and the checker gives the reloaded journal the verdict of the original), C09_print_fixpoint / C09_print_rejected (knut print on the printed text of an accepted printable journal writes that text; a rejected one stays rejected), C09_print_idempotent(_bytes) (print is idempotent on its own output), C09_reports_equal (knut balance under ANY flag vector, valued or not, no restriction on price directives, gives the same bytes or fails alike on the directives loaded from the printed text and on the directives the journal was built from), C09_verdict_equal. Printable (PrintableDir / PrintableJournal, decidable) = what the journal syntax can carry: dates 0000..9999, names of Unicode letters/digits, decimal amounts, assertions with at least one balance, descriptions without a double quote, transactions as transaction.Create builds them. UNCONDITIONAL for texts: C09_loaded_printable (every directive the loader returns from ANY byte string is PrintableDir: the parser's soundness gives field tokens of the right lexical classes, time.Parse / NewFromString / the registry / transaction.Create incl. @accrue expansion give the rest; Proofs/PrintSound.lean), hence C09_print_idempotent: for EVERY input text, if knut print succeeds on it then knut print on its output writes the same bytes; C09_file_reports_equal: check verdict and every balance report (any flags) of the printed file equal those of the input file. ONE ELABORATION MODEL (Properties/C09Cmd.lean): C09_elab_agrees - on every file the parser accepts, Commands.elabFile (inside Cmd.run, the command model C14 compares with the binary) returns the directives FromSyntax.loadText returns, errs iff it errs, panics iff it panics (a validly encoded token is the token of a character; the two models of time.Parse and NewFromString agree on every string; same order of handling). The models differed on one input class (transaction.Create panic followed by a later directive the elaboration rejects: loadText said error, Cmd.run and the real binary panic); loadText was repaired. C09_cmd_print_is_printFile (Cmd.run .print on a file without include directives = printFile of its bytes), and for EVERY file system and include tree on the input side: C09_cmd_loaded_printable, C09_cmd_print_idempotent (knut print succeeds with out => knut print on a file holding out writes out), C09_cmd_reports_equal (knut balance, every flag vector, same outcome on that file as on the input), C09_cmd_verdict_equal (knut check). Open: check --write's printed assertions are not compared. Proved (all bookings, all amounts): C09_booking_normal_form (rebuilding the booking that print writes from the debit-side posting yields "
                  "the identical posting pair), C09_printed_quantity_nonneg, C09_reprint_same_line, C09_targets_line. Properties/C09Decimal.lean: C09_dec_scaled_roundtrip, C09_dec_string_roundtrip (parseDec (showDec r) = r for every decimal rational), C09_dec_string_shortest, "
@@ -206,7 +206,7 @@ PROPS = {
         "assumptions": ["no account/commodity filter and no level-0 mapping in this check's flag vectors (the property's own proviso)"],
     },
     "C04": {
-        "lean": ["Knut.Properties.C04", "Knut.FactsAgree.TransCheck", "Knut.FactsAgree.TransCreate", "Knut.FactsAgree.TransCreate2", "Knut.Properties.C04Go"],
+        "lean": ["Knut.Properties.C04", "Knut.FactsAgree.TransCheck", "Knut.FactsAgree.TransCreate", "Knut.FactsAgree.TransCreate2", "Knut.FactsAgree.TransCreate3", "Knut.Properties.C04Go"],
         "level": "proof",
         "claim": "Refinement theorem C04_refines: on every list of days the model of the checker processor (maps with deletion on close, as in check.go) and the "
                  "lifecycle specification (open set + log of A/L postings; running quantity = sum over the log) give the same verdict and, on rejection, name the same "
@@ -285,7 +285,7 @@ PROPS = {
                         "the parser model equals the Go parser (C07's correspondence, re-exercised here through c08format)"],
     },
     "C10": {
-        "lean": ["Knut.Properties.C10", "Knut.FactsAgree.TransDate", "Knut.FactsAgree.TransAccount", "Knut.FactsAgree.TransPosting", "Knut.FactsAgree.TransTransaction", "Knut.FactsAgree.TransCreate", "Knut.FactsAgree.TransCreate2", "Knut.Properties.C10Go"],
+        "lean": ["Knut.Properties.C10", "Knut.FactsAgree.TransDate", "Knut.FactsAgree.TransAccount", "Knut.FactsAgree.TransPosting", "Knut.FactsAgree.TransTransaction", "Knut.FactsAgree.TransCreate", "Knut.FactsAgree.TransCreate2", "Knut.FactsAgree.TransCreate3", "Knut.Properties.C10Go"],
         "level": "proof",
         "claim": "Lean theorems over the model of transaction.Create/expand (lib/model/transaction/transaction.go) with posting.Builder.Build, date.NewPartition (the C11 model, last = 0) "
                  "and Decimal.QuoRem(n, 1), for any number of bookings, all five account types, any quantities, every interval and every window with start <= end: every generated "
